@@ -287,6 +287,13 @@ def r3_pairing(rep, ctx):
     if not stores:
         raise AnalysisError("SetCurrent: no store of _current found")
     del CURRENT_TERMS[1:]
+    # "no current system" has one representation, None (AddUnitSystem and RemoveUnitSystem test `_current is None`,
+    # GetCurrent maps it to the null system): the null system itself is never stored as the current one
+    for st0 in stores:
+        alts = [a_ for x in walk(res.term(st0.value)) for a_ in alternatives(x)]
+        nulls = [a_ for a_ in alts if a_[0] == "field" and a_[1].endswith("null_unit_system")]
+        rep.check(not nulls, "C17.R3", "SetCurrent:none-is-the-only-no-current-state:%s" % norm(ast.unparse(st0))[:60], "the null system is never stored as the current system (None stands for 'no current system')",
+                  "SetCurrent stores the null unit system into _current: the tests `_current is None` (a system added while none is current becomes current; removal re-selects) no longer recognise that no system is current", node=st0, fn=fn)
     for st0 in stores:
         stored_t = res.term(st0.value)
         if stored_t[0] == "param" and stored_t not in CURRENT_TERMS:
@@ -454,6 +461,26 @@ def r5_notify(rep, ctx):
             before = any(mn in cfg.reach(f) and f not in cfg.reach(mn) for f in fire_nodes)
             rep.check(after and not before, "C17.R5", "UnitSystem.%s:notify-after-mutation" % name, "on_default_unit fires after the mapping was changed, on every mutating path",
                       "UnitSystem.%s: %s" % (name, "listeners are notified before the mapping is changed" if before else "a mutating path does not notify on_default_unit"), node=mu, fn=fn)
+        # ... and only then: a notification is reached only through a statement that certainly changed the mapping
+        # (a store, `del m[k]` / `m.pop(k)` which raise when there is nothing to remove, or a removal under `k in m`)
+        from ..facts import facts as nfacts
+        definite = set()
+        for mu in muts:
+            mn = cfg.node_of(mu)
+            if isinstance(mu, (ast.Assign, ast.Delete)):
+                definite.add(mn)
+            elif isinstance(mu, ast.Call) and mu.func.attr == "pop":
+                if len(mu.args) == 1 and not mu.keywords:
+                    definite.add(mn)
+                elif any(k == "in" and pos and r_ is not None and res.term(r_) == ("field", "_units_mapping") for k, l, r_, pos in nfacts(cfg, mn)):
+                    definite.add(mn)
+                elif not isinstance(getattr(mu, "_parent", None), ast.Expr):
+                    raise AnalysisError("UnitSystem.%s: the result of `%s` is used: whether a notification follows only a real removal cannot be read off" % (name, norm(ast.unparse(mu))))
+        done_edges = {(mn, b, l) for mn in definite for (b, l) in cfg.succ[mn] if l != "exc"}
+        free = cfg.reach(cfg.ENTRY, avoid_edges=done_edges)
+        for c in fires:
+            rep.check(cfg.node_of(c) not in free, "C17.R5", "UnitSystem.%s:notify-only-after-mutation" % name, "on_default_unit fires only after the mapping was certainly changed",
+                      "UnitSystem.%s can notify on_default_unit on a path where the mapping was not changed (nothing to remove): listeners hear of a default-unit change that did not happen" % name, node=c, fn=fn)
         for c in fires:
             args = [res.term(a) for a in c.args]
             cat_ok = len(args) == 2 and args[0][0] == "param" and args[0][2] == "category"
